@@ -12,6 +12,12 @@ Instructions (each yields one register unless noted):
   ["add", a, b] ["sub", a, b] ["mul", a, b] ["addi", a, k] ["muli", a, k] ["neg", a]
   ["lt", a, b] ["lti", a, k] ["eq", a, b] ["eqi", a, k] ["band", a, b] ["bnot", a] ["tolc", a]
   ["val", a]                               (public output; yields nothing)
+  checks on existing wires, each yields nothing and writes ONE equation over wires that already exist, so emitting it
+  again writes the identical line (bodies of one named function that differ only in how often a check is emitted):
+  ["bitcheck", a]       add_constraint(x, 1 - x, 0)           (x must hold 0 or 1)
+  ["recheck", a, b, c]  add_constraint(a, b, c)               (c must hold a*b)
+  ["aeq", a, b]         a.assert_eq(b)                        (equal values)
+  ["azero", a]          a.assert_zero()                       (value 0)
   ["call", fname, mode, [argspec…]]        (yields one register per leaf of the returned structure)
 argspec / retspec: register index | {"int": k} | {"list": […]} | {"tuple": […]}
 Inside a body the registers are the flattened non-integer leaves of the arguments, then the body's own.
@@ -41,7 +47,7 @@ assert R.backend is B, "qaptools backend not selected: " + R.backend.__name__
 
 events = []
 suppress = [False]
-snapshot = {"disk": None}
+snapshot = {"disk": None, "sigs": None}
 
 
 def sigstr(sig):
@@ -73,7 +79,14 @@ def qapsplit():
     # what is on disk at the moment prove() reads the equation file back (no flush from here)
     with open(O.get_eqs_file()) as f:
         snapshot["disk"] = f.read()
-    return _qapsplit()
+    ret = _qapsplit()
+    # the signatures prove() hands to key generation: `sigs` of `qaplens,blklen,extlen,sigs = qapsplit.qapsplit()` is passed
+    # entry by entry to runqapgenf.ensure_ek(nm, sigs[nm], ...) (with the stub binaries ensure_mkey fails before that)
+    try:
+        snapshot["sigs"] = {str(k): str(v) for k, v in dict(ret[3]).items()}
+    except Exception:
+        snapshot["sigs"] = None
+    return ret
 
 
 B.privval, B.pubval, B.add_constraint, QS.qapsplit = privval, pubval, add_constraint, qapsplit
@@ -136,6 +149,10 @@ class Interp:
             elif op == "bnot": regs.append(~regs[ins[1]])
             elif op == "tolc": regs.append(regs[ins[1]].lc)
             elif op == "val": regs[ins[1]].val()
+            elif op == "bitcheck": R.add_constraint(regs[ins[1]], 1 - regs[ins[1]], LinComb.ZERO)
+            elif op == "recheck": R.add_constraint(regs[ins[1]], regs[ins[2]], regs[ins[3]])
+            elif op == "aeq": regs[ins[1]].assert_eq(regs[ins[2]])
+            elif op == "azero": regs[ins[1]].assert_zero()
             elif op == "call": regs.extend(self.call(ins[1], ins[2], [self.build(a, regs) for a in ins[3]]))
             else: raise ValueError("unknown instruction " + str(ins))
 
@@ -202,6 +219,7 @@ def main():
     gc.collect()            # closes qapsplit's schedule file object if an exception kept its frame alive
     out["stderr"] = err.getvalue()[-6000:]
     out["disk"] = snapshot["disk"]
+    out["sigs"] = snapshot["sigs"]
     # the complete files as a finished process leaves them (interpreter exit flushes the writers)
     for fobj in (B.qape, B.qapv, B.qapvo):
         if fobj is not None:
